@@ -4,7 +4,7 @@
 set -u
 export GOFLAGS=-mod=mod GOPROXY=off GOSUMDB=off
 ID="$1"; K="$2"; TIER="${3:-quick}"
-SRC="/tmp/sa/$ID.out/$K"
+SRC="${SA_DIR:-/tmp/sa}/$ID.out/$K"
 [ -f "$SRC/patch.diff" ] || { echo "no patch for $ID/$K"; exit 2; }
 W=$(mktemp -d /var/tmp/seed.XXXXXX)
 git -C /repo worktree add -q --detach "$W" HEAD || exit 2
